@@ -38,7 +38,7 @@ func init() {
 	register(&c18{base{
 		id:          "C18",
 		level:       lvlFaultEnum,
-		rule:        "for each (format, operation in {create, verify, repair, repair+doublecheck}, archive state in {intact, one file damaged, several damaged, all-slices-present-but-mangled, volume missing}) one recording run through the file-system seam yields the I/O call sequence (N calls) and the fault-free reference outcome; then a fault is injected at EVERY call index x EVERY kind (reads/listings: error; writes: error without effect, error after truncation to zero, error after a partial prefix), singly, and in pairs (all pairs for N <= 12, seeded pairs above). Per faulted run: the operation must return an error; RepairedPaths must list only files whose write completed; only files with a write event in THIS run may differ from the pre-run snapshot, and completed repair writes must be exact originals; then the fault is removed and the operation re-run: it must reach the reference outcome (same result, same final directory) unless the torn write itself pushed the damage beyond the remaining capacity, which the harness recomputes from the bytes on disk. A second layer injects errno faults into openat/read/write/getdents64 of the real par binary with strace. A key is (format, op, state, call index, kind[, second index]). Fault kind open-fails (reads, listings, writes): gopar's real file-system code runs while the process has no free descriptor, so open fails inside the code under test; a file whose only write-open failed must be unchanged. Recording delegates: a success report for a path whose write did not complete is a violation. State unwritable-target: a protected file is a symbolic link into a deleted directory; nil without injected faults must mean restored. Also: a read that fails while ONE Encoder loads its inputs, then the same Encoder loads again: what it writes must equal an undisturbed Create.",
+		rule:        "for each (format, operation in {create, verify, repair, repair+doublecheck}, archive state in {intact, one file damaged, several damaged, all-slices-present-but-mangled, volume missing}) one recording run through the file-system seam yields the I/O call sequence (N calls) and the fault-free reference outcome; then a fault is injected at EVERY call index x EVERY kind (reads/listings: error; writes: error without effect, error after truncation to zero, error after a partial prefix), singly, and in pairs (all pairs for N <= 12, seeded pairs above). Per faulted run: the operation must return an error; RepairedPaths must list only files whose write completed; only files with a write event in THIS run may differ from the pre-run snapshot, and completed repair writes must be exact originals; then the fault is removed and the operation re-run: it must reach the reference outcome (same result, same final directory) unless the torn write itself pushed the damage beyond the remaining capacity, which the harness recomputes from the bytes on disk. A second layer injects errno faults into openat/read/write/getdents64 of the real par binary with strace. A key is (format, op, state, call index, kind[, second index]). Fault kind open-fails (reads, listings, writes): gopar's real file-system code runs while the process has no free descriptor, so open fails inside the code under test; a file whose only write-open failed must be unchanged. Recording delegates: a success report for a path whose write did not complete is a violation. State unwritable-target: a protected file is a symbolic link into a deleted directory; nil without injected faults must mean restored. Also: a read that fails while ONE Encoder loads its inputs, then the same Encoder loads again: what it writes must equal an undisturbed Create.. Injected faults reach the code as *os.PathError values (read/EIO, write/ENOSPC, readdirent/EIO); create with a vanished input and with one below a regular file through the binary.",
 		assumptions: append([]string{"a read that fails with a non-existence error is damage, every other injected failure must surface as an error"}, commonAssumptions...),
 		opts:        core.WorkerOpts{CrashIsViolation: true, WallSeconds: 2400},
 	}})
